@@ -85,6 +85,39 @@ def observe_meta_from_str(case):
     return {'ok': sorted(d.items())}
 
 
+def observe_csv(case):
+    import csv
+    import io
+    if case['kind'] == 'csv_write':
+        buf = io.StringIO(newline='')
+        csv.writer(buf).writerow(case['fields'])
+        return {'line': buf.getvalue()}
+    rows = list(csv.reader([case['line']]))
+    return {'fields': rows[0] if rows else None}
+
+
+def observe_csv_file(case, workdir):
+    """the data lines SimilarityContainer.to_csv really writes, and what from_csv reads from them"""
+    c = SimilarityContainer({'k': 'v'})
+    for a, b, tok in case['ops']:
+        c.set_similarity(a, b, fl(tok))
+    path = os.path.join(workdir, 'cf%d.csv' % os.getpid())
+    try:
+        c.to_csv(path)
+        with open(path, 'r', newline='', encoding='utf-8') as fh:
+            raw = fh.read()
+        body = raw
+        while body.startswith('#'):          # the two comment lines end with LF, the csv rows with CR LF
+            body = body[body.index('\n') + 1:]
+        lines = body.split('\r\n')
+        data = [l + '\r\n' for l in lines[:-1]] if body.endswith('\r\n') else None
+        rows = [[a, b, repr(v)] for a, b, v in c.items()]
+        return {'data_lines': data, 'rows': [['term_a', 'term_b', 'ic_mica']] + rows, 'raw_head': raw[:200]}
+    finally:
+        if os.path.exists(path):
+            os.remove(path)
+
+
 def observe(payload):
     res = []
     for case in payload['cases']:
@@ -93,6 +126,10 @@ def observe(payload):
                 res.append(observe_history(case, payload['workdir']))
             elif case['kind'] == 'meta_to_str':
                 res.append(observe_meta_to_str(case))
+            elif case['kind'] in ('csv_write', 'csv_read'):
+                res.append(observe_csv(case))
+            elif case['kind'] == 'csv_file':
+                res.append(observe_csv_file(case, payload['workdir']))
             else:
                 res.append(observe_meta_from_str(case))
         except Exception as e:
